@@ -126,7 +126,7 @@ def main():
         # a race needs the right overlap: repeat the recorded run a few times
         for k in range(4):
             res = race_runs(ctx, bins, [(rp["seed"], rp["ms"], rp.get("workers", 12))])
-            if res[0]["races"] or res[0]["fatal"]:
+            if res[0]["races"] or res[0]["fatal"] or res[0]["summary"].get("invariant_failures"):
                 ctx.log("replay:", res[0]["report"][:600] or res[0]["stderr"][:600])
                 violation(ctx, rp)
                 break
@@ -163,7 +163,7 @@ def main():
         "lock_table_modes": {m: len([r for r in (rows or []) if r["mode"] == m]) for m in "NRW"},
         "lock_table_exemptions": [{"site": list(k), "why": v} for k, v in EXEMPT.items()],
         "traces_validated_against_impl": 1 if rows else 0,
-        "race_reports": sum(r["races"] for r in res), "fatal_errors": len([r for r in res if r["fatal"]]),
+        "race_reports": sum(r["races"] for r in res), "invariant_failures": [r["summary"].get("invariant_failures") for r in res if r["summary"].get("invariant_failures")], "fatal_errors": len([r for r in res if r["fatal"]]),
         "samples": [r["summary"] for r in res[:2]],
     })
     ctx.assumptions = ["the Go race detector reports races that occur in the explored executions (no false positives; misses races whose accesses did not overlap)",
@@ -172,7 +172,11 @@ def main():
         violation(ctx, {"what": "Coq development for C13 does not check", "broken": "Properties/C13.v or its dependencies"}, found_input=False)
     shown = 0
     for r in res:
-        if (r["races"] or r["fatal"] or r["rc"] not in (0, 66)) and shown < 3:
+        inv = r["summary"].get("invariant_failures") or {}
+        if inv and shown < 3:
+            shown += 1
+            violation(ctx, {"what": "an operation saw an inconsistent state under concurrent use: %s" % inv, "seed": r["seed"], "ms": r["ms"], "workers": r["workers"]})
+        elif (r["races"] or r["fatal"] or r["rc"] not in (0, 66)) and shown < 3:
             shown += 1
             violation(ctx, {"what": "data race / runtime fatal error under concurrent use of the runner" if (r["races"] or r["fatal"]) else "racerun failed (rc %s)" % r["rc"],
                             "seed": r["seed"], "ms": r["ms"], "workers": r["workers"], "sites": race_sites(r["report"]), "report": r["report"][:4000], "stderr": r["stderr"]})
